@@ -80,6 +80,10 @@ def h_orig_cmdt(ex, prop, L, holds=(0,), interval=None, windows='sym', rewind=No
 
     def send_cts():
         remaining = npk - st['got']
+        if remaining <= 0:
+            # the originator went on sending while the responder had not cleared anything
+            ex.claim(('c03' if c03 else 'c09') + '.orig.data_sent_without_clearance', False, {'got': st['got'], 'npk': npk})
+            return
         k = st['grant_no']
         nh = holds[k] if k < len(holds) else 0
         if st.get('holds_left') is None:
